@@ -31,6 +31,8 @@ CONFIGS = {
     "tag-reuse":     [(1, "op", 0, "getattr"), (2, "op", 0, "read"), (1, "op", 0, "walk")],
     "bad-frame":     [(1, "op", 0, "read"), (2, "bad", 0, ""), (3, "op", 0, "getattr")],
     "three-ops":     [(1, "op", 0, "read"), (2, "op", 0, "write"), (3, "op", 0, "getattr")],
+    # read-class and write-class requests on unrelated paths: none delays another
+    "mixed-ops":     [(1, "op", 0, "read"), (2, "op", 0, "mkdir"), (3, "op", 0, "setattr")],
 }
 
 INVARIANTS = ["AtMostOneReply", "Contiguous", "NoUnsolicitedReply", "OneReceiver", "ReceiverExists", "FlushAfterStop"]
